@@ -1,10 +1,105 @@
 import MazeVerif.DriverOps.Util
+import MazeVerif.Model.AllInst
+import MazeVerif.Generated.TokenizerTypes
 namespace MZ.Drv.C15
-open Lean MZ.Drv
+open Lean MZ.Drv MZ.AI MZ.Gen.Tok
 
-/-- driver ops of property C15 (`"op": "C15.<name>"`) -/
-def handle (op : String) (_j : Json) : R Json := do
+mutual
+def valToJson : Val → Json
+  | .b x => Json.bool x
+  | .lit (.str s) => obj [("s", Json.str s)]
+  | .lit (.int i) => obj [("i", jInt i)]
+  | .tup vs => obj [("t", Json.arr (valsToJson vs).toArray)]
+  | .obj c fs => obj [("c", Json.str c), ("f", Json.arr (valsToJson fs).toArray)]
+def valsToJson : List Val → List Json
+  | [] => []
+  | v :: vs => valToJson v :: valsToJson vs
+end
+
+partial def jsonToVal (j : Json) : R Val :=
+  match j with
+  | .bool x => pure (.b x)
+  | _ =>
+    match optFld j "s", optFld j "i", optFld j "t", optFld j "c" with
+    | some s, _, _, _ => do pure (.lit (.str (← s.getStr?)))
+    | _, some i, _, _ => do pure (.lit (.int (← i.getInt?)))
+    | _, _, some t, _ => do pure (.tup (← (← t.getArr?).toList.mapM jsonToVal))
+    | _, _, _, some c => do pure (.obj (← c.getStr?) (← (← getArr j "f").mapM jsonToVal))
+    | _, _, _, _ => throw "value: expected bool | {s} | {i} | {t} | {c,f}"
+
+mutual
+def jToJson : J → Json
+  | .bool x => Json.bool x
+  | .str s => Json.str s
+  | .int i => jInt i
+  | .arr xs => Json.arr (jsToJson xs).toArray
+  | .obj kv => Json.mkObj (kvToJson kv)
+def jsToJson : List J → List Json
+  | [] => []
+  | x :: xs => jToJson x :: jsToJson xs
+def kvToJson : List (String × J) → List (String × Json)
+  | [] => []
+  | (k, x) :: r => (k, jToJson x) :: kvToJson r
+end
+
+/-- the name the real object reports: `MazeTokenizerModular.name` for the tokenizer itself, `_TokenizerElement.name`
+    (or the tuple rendering used inside it) otherwise -/
+def nameOf (v : Val) : String :=
+  match v with
+  | .obj "MazeTokenizerModular" _ => (mtmName fieldNames v).getD "<no name>"
+  | _ => elName fieldNames v
+
+/-- cheap order-sensitive fingerprint over (length, byte sum) of the names; the harness computes the same -/
+def cheapFp (names : List String) : Nat :=
+  names.foldl (fun acc s => (acc * 1000003 + s.length * 1048576 + s.foldl (fun h c => h + c.toNat) 0) % (2 ^ 61 - 1)) 0
+
+/-- ops:
+  `C15.enum` {cls, names?:bool, vals?:bool, prefix?:n, idx?:[i..], fp?:bool} →
+      {count, names?:[..], vals?:[..], at:[{i,name,val}], fp?}
+  `C15.value` {cls, val} → {name, ser, load_ok, legacy, member}
+  `C15.tables` {} → {classes:[..], legacy:[[mode,name]..], default} -/
+def handle (op : String) (j : Json) : R Json := do
   match op with
+  | "C15.enum" =>
+    let cls ← getStr j "cls"
+    match classTys.lookup cls with
+    | none => throw s!"unknown class {cls}"
+    | some ty =>
+      let all := allInstances ty
+      let n := all.length
+      let lim := match optFld j "prefix" with
+        | some p => (p.getNat?.toOption).getD n
+        | none => n
+      let pre := all.take lim
+      let wantNames := (optFld j "names").isSome
+      let wantVals := (optFld j "vals").isSome
+      let idx ← match optFld j "idx" with
+        | some a => asNatList a
+        | none => pure []
+      let arr := if idx.isEmpty then #[] else all.toArray
+      let at_ := idx.filterMap fun i => arr[i]?.map fun v =>
+        obj [("i", jNat i), ("name", Json.str (nameOf v)), ("val", valToJson v)]
+      let mut kv := [("count", jNat n), ("at", Json.arr at_.toArray)]
+      if wantNames then kv := kv ++ [("names", jStrs (pre.map nameOf))]
+      if wantVals then kv := kv ++ [("vals", Json.arr (valsToJson pre).toArray)]
+      if (optFld j "fp").isSome then kv := kv ++ [("fp", jNat (cheapFp (all.map nameOf)))]
+      pure (obj kv)
+  | "C15.value" =>
+    let cls ← getStr j "cls"
+    let v ← jsonToVal (← fld j "val")
+    let member := match classTys.lookup cls with
+      | some ty => checkTy ty v
+      | none => false
+    let s := ser fieldNames v
+    let loadOk := match load resolveShort fieldNames s with
+      | some w => decide (w = v)
+      | none => false
+    pure (obj [("name", Json.str (nameOf v)), ("ser", jToJson s), ("load_ok", Json.bool loadOk),
+               ("legacy", Json.bool (isLegacyEquivalent fromLegacy v)), ("member", Json.bool member)])
+  | "C15.tables" =>
+    pure (obj [("classes", jStrs (classTys.map (·.1))),
+               ("legacy", Json.arr (fromLegacy.map fun mv => Json.arr #[Json.str mv.1, Json.str (nameOf mv.2)]).toArray),
+               ("default", valToJson defaultTokenizer)])
   | _ => throw s!"unknown op {op}"
 
 end MZ.Drv.C15
